@@ -45,7 +45,7 @@ func VerifC12Hypertext() {
 	// the number after label L opens L's target
 	agree := true
 	for i, k := range nums {
-		if k >= 1 && k <= len(links) && labels[i] != 0 {
+		if k >= 1 && k <= len(links) && labels[i] != 0 && !g.unlabelled[k] {
 			agree = agree && links[k-1] == g.targets[labels[i]]
 		}
 	}
